@@ -11,27 +11,36 @@
 (* (harness proxyh: after every change every endpoint object that is not live any more is poked).                   *)
 EXTENDS Naturals, Sequences, FiniteSets, TLC, Json
 
-CONSTANTS MaxLen, Parent
-VARIABLES st, obj, loops, hist
-vars == <<st, obj, loops, hist>>
+CONSTANTS MaxLen, Parent, Restart, Health      \* Restart = FALSE (refuted): a loop that was cancelled by "disabled" is not started again; Health: also toggle the upstream's health
+VARIABLES st, obj, loops, hist, up, view, started         \* up: the upstream answers probes healthy; view: the gateway's view of the endpoint ("ready" | "unready")
+vars == <<st, obj, loops, hist, up, view, started>>     \* started: the objects that have had a loop
 
-Init == st = "gone" /\ obj = 0 /\ loops = {} /\ hist = <<>>
+Init == st = "gone" /\ obj = 0 /\ loops = {} /\ hist = <<>> /\ up = TRUE /\ view = "unready" /\ started = {}
+\* a live loop of the current object keeps the view up to date (probe on start, on every tick, on every trigger); without one the view is frozen
+Probe(ls, s, o, u, v) == IF s = "on" /\ \E l \in ls : l.obj = o THEN (IF u THEN "ready" ELSE "unready") ELSE v
 Alive(l) == IF l.parent = "ep" THEN l.obj = obj /\ st # "gone" ELSE TRUE         \* cancelled contexts end their loops
 Sweep(ls) == {l \in ls : Alive(l)}
 Add(m) == /\ st = "gone" /\ st' = m /\ obj' = obj + 1
           /\ loops' = IF m = "on" THEN {[obj |-> obj + 1, parent |-> "ep"]} ELSE {}                 \* first start: the endpoint's own context
-          /\ hist' = Append(hist, m)
+          /\ started' = IF m = "on" THEN started \cup {obj + 1} ELSE started
+          /\ hist' = Append(hist, m) /\ UNCHANGED up /\ view' = IF m = "on" /\ up THEN "ready" ELSE "unready"
 Disable == /\ st = "on" /\ st' = "off" /\ loops' = {l \in loops : l.obj # obj}                      \* cancelHealthCheck()
-           /\ UNCHANGED obj /\ hist' = Append(hist, "off")
-Enable == /\ st = "off" /\ st' = "on" /\ loops' = loops \cup {[obj |-> obj, parent |-> Parent]}       \* restarted on the update path
-          /\ UNCHANGED obj /\ hist' = Append(hist, "on")
+           /\ UNCHANGED <<obj, up, view, started>> /\ hist' = Append(hist, "off")
+Enable == /\ st = "off" /\ st' = "on"
+          /\ loops' = IF Restart \/ obj \notin started THEN loops \cup {[obj |-> obj, parent |-> Parent]} ELSE loops      \* restarted on the update path
+          /\ started' = started \cup {obj}
+          /\ UNCHANGED <<obj, up>> /\ view' = Probe(loops', "on", obj, up, view) /\ hist' = Append(hist, "on")
 Remove == /\ st # "gone" /\ st' = "gone" /\ UNCHANGED obj
           /\ loops' = {l \in loops : l.parent # "ep"}                                                   \* info.cancel(): the endpoint's context and its children
-          /\ hist' = Append(hist, "gone")
-Next == Len(hist) < MaxLen /\ (Add("on") \/ Add("off") \/ Disable \/ Enable \/ Remove)
+          /\ hist' = Append(hist, "gone") /\ UNCHANGED <<up, started>> /\ view' = "unready"
+\* the upstream's health changes (at any time, also while the endpoint is disabled or not listed)
+Flip == /\ Health /\ up' = ~up /\ UNCHANGED <<st, obj, loops, started>> /\ view' = Probe(loops, st, obj, ~up, view) /\ hist' = Append(hist, IF up THEN "hfail" ELSE "hok")
+Next == Len(hist) < MaxLen /\ (Add("on") \/ Add("off") \/ Disable \/ Enable \/ Remove \/ Flip)
 Spec == Init /\ [][Next]_vars
 
 ProbedIffEnabled == /\ (st = "on" => \E l \in loops : l.obj = obj)
                     /\ \A l \in loops : l.obj = obj /\ st = "on"
+\* the gateway's view of an enabled endpoint is what its upstream answers (what a fresh gateway would find)
+ViewFollows == st = "on" => view = (IF up THEN "ready" ELSE "unready")
 Emit == Len(hist) >= 2 => PrintT(<<"LIFE", ToJson(hist)>>)
 =============================================================================
